@@ -5,6 +5,7 @@ CONSTANTS
   FixLeave = FALSE
   FixWrap = FALSE
   FixDead = FALSE
+  FixAdopt = FALSE
   MaxTry = 10
   TrackCov = FALSE
   Goal = "none"
